@@ -11,41 +11,54 @@ Proof.
 Qed.
 
 (* what every walker sees at the start of a unit *)
+Lemma wf_len (P : list N) n R : Zlen (P ++ be32 (lenN n) ++ n ++ R) = Zlen P + 4 + Zlen n + Zlen R.
+Proof. rewrite !Zlen_app, Zlen_be32. lia. Qed.
+
+Lemma wf_slice_len (P : list N) n R : slice (P ++ be32 (lenN n) ++ n ++ R) (Zlen P) (Zlen P + 4) = Ok (be32 (lenN n)).
+Proof. rewrite <- (Zlen_be32 (lenN n)). apply slice_mid. Qed.
+
+Lemma wf_dec n : fits32 n = true -> be32_dec (be32 (lenN n)) = Zlen n.
+Proof.
+  intros Hfit. rewrite be32_dec_be32 by (unfold fits32, Zlen in Hfit; unfold lenN; lia). unfold lenN, Zlen. lia.
+Qed.
+
+Lemma wf_hdr (P : list N) x n' R :
+  getb (P ++ be32 (lenN (x :: n')) ++ (x :: n') ++ R) (Zlen P + 4) = Ok x.
+Proof.
+  replace (P ++ be32 (lenN (x :: n')) ++ (x :: n') ++ R)
+    with ((P ++ be32 (lenN (x :: n'))) ++ x :: (n' ++ R)) by (rewrite <- !app_assoc; reflexivity).
+  assert (E : Zlen (P ++ be32 (lenN (x :: n'))) = Zlen P + 4) by (rewrite Zlen_app, Zlen_be32; reflexivity).
+  rewrite <- E. apply getb_mid.
+Qed.
+
+Lemma wf_slice_unit (P : list N) n R :
+  slice (P ++ be32 (lenN n) ++ n ++ R) (Zlen P + 4) (Zlen P + 4 + Zlen n) = Ok n.
+Proof.
+  replace (P ++ be32 (lenN n) ++ n ++ R) with ((P ++ be32 (lenN n)) ++ n ++ R) by (rewrite <- !app_assoc; reflexivity).
+  assert (E : Zlen (P ++ be32 (lenN n)) = Zlen P + 4) by (rewrite Zlen_app, Zlen_be32; reflexivity).
+  rewrite <- E. apply slice_mid.
+Qed.
+
 Lemma walk_facts (P : list N) n t :
   nonempty n && fits32 n = true ->
-  let s := P ++ sample (n :: t) in
-  (Zlen P <? Zlen s - 4) = true /\
-  slice s (Zlen P) (Zlen P + 4) = Ok (be32 (lenN n)) /\
+  (Zlen P <? Zlen (P ++ sample (n :: t)) - 4) = true /\
+  slice (P ++ sample (n :: t)) (Zlen P) (Zlen P + 4) = Ok (be32 (lenN n)) /\
   be32_dec (be32 (lenN n)) = Zlen n /\
-  getb s (Zlen P + 4) = Ok (hd0 n) /\
-  (Zlen n >? Zlen s - (Zlen P + 4)) = false /\
-  slice s (Zlen P + 4) (Zlen P + 4 + Zlen n) = Ok n /\
-  s = (P ++ be32 (lenN n) ++ n) ++ sample t /\
+  getb (P ++ sample (n :: t)) (Zlen P + 4) = Ok (hd0 n) /\
+  (Zlen n >? Zlen (P ++ sample (n :: t)) - (Zlen P + 4)) = false /\
+  slice (P ++ sample (n :: t)) (Zlen P + 4) (Zlen P + 4 + Zlen n) = Ok n /\
+  P ++ sample (n :: t) = (P ++ be32 (lenN n) ++ n) ++ sample t /\
   Zlen (P ++ be32 (lenN n) ++ n) = Zlen P + 4 + Zlen n.
 Proof.
-  intros H s. apply andb_prop in H. destruct H as [Hne Hfit].
+  intros H. apply andb_prop in H. destruct H as [Hne Hfit].
   pose proof (Zlen_nonneg P) as HP. pose proof (Zlen_nonneg (sample t)) as Ht.
   destruct n as [|x n']; [discriminate|].
-  assert (Hs : Zlen s = Zlen P + 4 + Zlen (x :: n') + Zlen (sample t)).
-  { unfold s. cbn [sample]. rewrite !Zlen_app, Zlen_be32. lia. }
-  pose proof (Zlen_nonneg n') as Hn'. assert (Hn : Zlen (x :: n') = 1 + Zlen n') by apply Zlen_cons.
-  repeat split.
-  - lia.
-  - unfold s. cbn [sample]. rewrite <- (Zlen_be32 (lenN (x :: n'))). apply slice_mid.
-  - rewrite be32_dec_be32 by (unfold fits32, Zlen in Hfit; unfold lenN; lia). unfold lenN, Zlen. lia.
-  - unfold s. cbn [sample hd0 hd].
-    replace (P ++ be32 (lenN (x :: n')) ++ (x :: n') ++ sample t)
-      with ((P ++ be32 (lenN (x :: n'))) ++ x :: (n' ++ sample t)) by (rewrite <- !app_assoc; reflexivity).
-    replace (Zlen P + 4) with (Zlen (P ++ be32 (lenN (x :: n')))) by (rewrite Zlen_app, Zlen_be32; reflexivity).
-    apply getb_mid.
-  - lia.
-  - unfold s. cbn [sample].
-    replace (P ++ be32 (lenN (x :: n')) ++ (x :: n') ++ sample t)
-      with ((P ++ be32 (lenN (x :: n'))) ++ (x :: n') ++ sample t) by (rewrite <- !app_assoc; reflexivity).
-    replace (Zlen P + 4) with (Zlen (P ++ be32 (lenN (x :: n')))) by (rewrite Zlen_app, Zlen_be32; reflexivity).
-    apply slice_mid.
-  - unfold s. cbn [sample]. rewrite <- !app_assoc. reflexivity.
-  - rewrite !Zlen_app, Zlen_be32. lia.
+  pose proof (Zlen_nonneg n') as Hn'. pose proof (Zlen_cons x n') as Hn.
+  cbn [sample]. pose proof (wf_len P (x :: n') (sample t)) as HL.
+  split; [lia|]. split; [apply wf_slice_len|]. split; [apply wf_dec; exact Hfit|].
+  split; [apply wf_hdr|]. split; [lia|]. split; [apply wf_slice_unit|].
+  split; [rewrite <- !app_assoc; reflexivity|].
+  rewrite !Zlen_app, Zlen_be32. lia.
 Qed.
 
 Lemma walk_end (P : list N) : (Zlen P <? Zlen (P ++ sample []) - 4) = false.
@@ -102,7 +115,7 @@ Proof.
     fold (utype ty n).
     destruct stop as [isv|]; cbn [walk_types types_upto map].
     + destruct (isv (utype ty n)) eqn:Ev.
-      * cbn [rev]. rewrite <- app_assoc. reflexivity.
+      * cbn [rev]. rewrite <- ?app_assoc. reflexivity.
       * rewrite <- F8. rewrite F7 at 1 2.
         rewrite IH by (try exact Hw; cbn [length] in Hf; lia).
         cbn [rev walk_types]. rewrite <- app_assoc. reflexivity.
@@ -250,4 +263,94 @@ Proof.
            ++ change ((4 <=? 2)%N) with false. change (N.eqb 4 3) with false. cbn iota.
               rewrite IH. cbn [of_type filter].
               apply N.eqb_neq in E2. apply N.eqb_neq in E3. apply N.eqb_neq in E4. rewrite E2, E3, E4. reflexivity.
+Qed.
+
+(* ---------- HasParameterSets flags ---------- *)
+Lemma avc_hps_spec : forall tl a b, a && b = false ->
+  avc_hps_loop tl a b = (a || existsb (fun t => N.eqb t 7) tl) && (b || existsb (fun t => N.eqb t 8) tl).
+Proof.
+  induction tl as [|t r IH]; intros a b Hab.
+  - cbn [avc_hps_loop existsb]. rewrite !orb_false_r. symmetry. exact Hab.
+  - cbn [avc_hps_loop existsb].
+    destruct (N.eqb t 7) eqn:E7; destruct (N.eqb t 8) eqn:E8;
+      destruct a, b; try discriminate Hab; cbn [andb orb];
+      try reflexivity; rewrite IH by reflexivity; cbn [orb andb]; reflexivity.
+Qed.
+
+Lemma hevc_hps_spec : forall tl a b c, a && b && c = false ->
+  hevc_hps_loop tl a b c =
+  (a || existsb (fun t => N.eqb t 32) tl) && (b || existsb (fun t => N.eqb t 33) tl)
+  && (c || existsb (fun t => N.eqb t 34) tl).
+Proof.
+  induction tl as [|t r IH]; intros a b c Habc.
+  - cbn [hevc_hps_loop existsb]. rewrite !orb_false_r. symmetry. exact Habc.
+  - cbn [hevc_hps_loop existsb].
+    destruct (N.eqb t 32) eqn:E2; destruct (N.eqb t 33) eqn:E3; destruct (N.eqb t 34) eqn:E4;
+      destruct a, b, c; try discriminate Habc; cbn [andb orb];
+      try reflexivity; rewrite IH by reflexivity; cbn [orb andb]; reflexivity.
+Qed.
+
+(* ---------- assembled statements ---------- *)
+Definition in_range (lo hi : N) (t : N) : bool := (lo <=? t)%N && (t <=? hi)%N.
+
+Lemma helpers_avc_sample ns : walkable ns = true ->
+  (ns <> [] -> get_nalus_from_sample (sample ns) = Ok ns) /\
+  avc_find_nalu_types (sample ns) = Ok (map (utype avc_type) ns) /\
+  avc_find_nalu_types_up_to_video (sample ns) = Ok (types_upto avc_type avc_is_video ns) /\
+  (forall want, avc_contains_nalu_type (sample ns) want = Ok (has_type avc_type want ns)) /\
+  avc_is_idr_sample (sample ns) = Ok (has_type avc_type 5 ns) /\
+  avc_has_parameter_sets (sample ns) =
+    Ok (existsb (fun t => N.eqb t 7) (types_upto avc_type avc_is_video ns)
+        && existsb (fun t => N.eqb t 8) (types_upto avc_type avc_is_video ns)) /\
+  avc_get_parameter_sets (sample ns) =
+    Ok ([], of_type avc_type 7 (before_video avc_type avc_is_video ns),
+            of_type avc_type 8 (before_video avc_type avc_is_video ns)).
+Proof.
+  intros Hw. pose proof (length_sample_ge ns) as Hl.
+  split; [intros Hne; apply get_nalus_spec; assumption|].
+  split; [exact (find_types_gen avc_type None ns Hw)|].
+  split; [exact (find_types_gen avc_type (Some avc_is_video) ns Hw)|].
+  split; [intros want; apply contains_top; exact Hw|].
+  split; [apply contains_top; exact Hw|].
+  split.
+  - unfold avc_has_parameter_sets, avc_find_nalu_types_up_to_video.
+    rewrite (find_types_gen avc_type (Some avc_is_video) ns Hw). cbn [rbind walk_types].
+    rewrite avc_hps_spec by reflexivity. reflexivity.
+  - unfold avc_get_parameter_sets.
+    pose proof (gps_spec avc_type avc_ps_class ns (S (length (sample ns))) [] ([], [], []) ltac:(lia) Hw) as G.
+    cbn [app] in G. change (Zlen (@nil N)) with 0 in G. rewrite G.
+    rewrite gps_fold_avc. reflexivity.
+Qed.
+
+Lemma helpers_hevc_sample ns : walkable ns = true ->
+  hevc_find_nalu_types (sample ns) = Ok (map (utype hevc_type) ns) /\
+  hevc_find_nalu_types_up_to_video (sample ns) = Ok (types_upto hevc_type hevc_is_video ns) /\
+  (forall want, hevc_contains_nalu_type (sample ns) want = Ok (has_type hevc_type want ns)) /\
+  hevc_is_rap_sample (sample ns) = Ok (existsb (in_range 16 23) (map (utype hevc_type) ns)) /\
+  hevc_is_idr_sample (sample ns) = Ok (existsb (in_range 19 20) (map (utype hevc_type) ns)) /\
+  hevc_has_parameter_sets (sample ns) =
+    Ok (existsb (fun t => N.eqb t 32) (types_upto hevc_type hevc_is_video ns)
+        && existsb (fun t => N.eqb t 33) (types_upto hevc_type hevc_is_video ns)
+        && existsb (fun t => N.eqb t 34) (types_upto hevc_type hevc_is_video ns)) /\
+  hevc_get_parameter_sets (sample ns) =
+    Ok (of_type hevc_type 32 (before_video hevc_type hevc_is_video ns),
+        of_type hevc_type 33 (before_video hevc_type hevc_is_video ns),
+        of_type hevc_type 34 (before_video hevc_type hevc_is_video ns)).
+Proof.
+  intros Hw. pose proof (length_sample_ge ns) as Hl.
+  split; [exact (find_types_gen hevc_type None ns Hw)|].
+  split; [exact (find_types_gen hevc_type (Some hevc_is_video) ns Hw)|].
+  split; [intros want; apply hevc_contains_top; exact Hw|].
+  split; [unfold hevc_is_rap_sample, hevc_find_nalu_types;
+          rewrite (find_types_gen hevc_type None ns Hw); reflexivity|].
+  split; [unfold hevc_is_idr_sample, hevc_find_nalu_types;
+          rewrite (find_types_gen hevc_type None ns Hw); reflexivity|].
+  split.
+  - unfold hevc_has_parameter_sets, hevc_find_nalu_types_up_to_video.
+    rewrite (find_types_gen hevc_type (Some hevc_is_video) ns Hw). cbn [rbind walk_types].
+    rewrite hevc_hps_spec by reflexivity. reflexivity.
+  - unfold hevc_get_parameter_sets.
+    pose proof (gps_spec hevc_type hevc_ps_class ns (S (length (sample ns))) [] ([], [], []) ltac:(lia) Hw) as G.
+    cbn [app] in G. change (Zlen (@nil N)) with 0 in G. rewrite G.
+    rewrite gps_fold_hevc. reflexivity.
 Qed.
